@@ -30,9 +30,11 @@ class GenC03(Gen):
     """gen_pcode.Gen with many more thresholds (chosen to be reachable in the current base unit),
     Base changes and Waits."""
 
-    def __init__(self, rng: random.Random, p_thr: float = 0.4, waits: list[str] | None = None, **kw):
+    def __init__(self, rng: random.Random, p_thr: float = 0.4, waits: list[str] | None = None,
+                 p_wait: float = 0.2, **kw):
         super().__init__(rng, **kw)
         self.p_thr = p_thr
+        self.p_wait = p_wait
         self.base = "min"
         self.waits = waits or WAITS_ANY
 
@@ -48,6 +50,13 @@ class GenC03(Gen):
             self.count("threshold")
             self.count("threshold_in_" + self.base)
         self.lines.append("    " * depth + prefix + text)
+
+    def mark(self, depth: int):
+        if "wait" in self.features and self.rng.random() < self.p_wait:
+            self.emit(depth, "Wait: 1s")
+            self.count("wait")
+        else:
+            super().mark(depth)
 
     def program(self) -> str:
         r = self.rng
